@@ -143,10 +143,10 @@ def coords_of(ev, why):
 
 def run(ctx):
     bins = cargo_build(["conv64", "conv32", "convstd64", "convstd32"])
+    follow_tree(ctx)
     r = tlc_mc(ctx, "MC_ConvGraph", tag="convgraph", workers=4)
     routes = extract_prints(r.out_path, "REPLAY")
     ctx.cov["samples"].append({"route_emitted_by_TLC": json.loads(routes[len(routes) // 2])})
-    check_tables_follow_tree()
     cmds = ctx.p("c01.cmds")
     n = gen(ctx, cmds)
     log("C01: %d commands" % n)
@@ -177,31 +177,76 @@ def run(ctx):
                            "tolerance classes of spec/ColourEq.tla"])
 
 
-def check_tables_follow_tree():
-    """The skip lists and preferred sources in ConvGraph.tla are a transcription of the tree: compare them with the
-    working tree so that a changed route is a tool error to look at, not a silent divergence of the model."""
+SKIP_FILES = {"Xyz": "xyz.rs", "Yxy": "yxy.rs", "Lab": "lab.rs", "Lch": "lch.rs", "Luv": "luv.rs", "Lchuv": "lchuv.rs",
+              "Hsluv": "hsluv.rs", "Hsl": "hsl.rs", "Hsv": "hsv.rs", "Hwb": "hwb.rs", "Luma": "luma/luma.rs", "Lms": "lms/lms.rs",
+              "Oklab": "oklab.rs", "Oklch": "oklch.rs", "Okhsl": "okhsl.rs", "Okhsv": "okhsv.rs", "Okhwb": "okhwb.rs", "Rgb": "rgb/rgb.rs"}
+
+
+def tree_tables(root):
+    """(preferred-source pairs in declaration order, skip lists) read from the working tree, or None when the sources
+    no longer look the way this reader expects (then the pinned transcription stays in force)."""
     import re
-    spec = (SPEC / "ConvGraph.tla").read_text()
-    files = {"Xyz": "xyz.rs", "Yxy": "yxy.rs", "Lab": "lab.rs", "Lch": "lch.rs", "Luv": "luv.rs", "Lchuv": "lchuv.rs",
-             "Hsluv": "hsluv.rs", "Hsl": "hsl.rs", "Hsv": "hsv.rs", "Hwb": "hwb.rs", "Luma": "luma/luma.rs", "Lms": "lms/lms.rs",
-             "Oklab": "oklab.rs", "Oklch": "oklch.rs", "Okhsl": "okhsl.rs", "Okhsv": "okhsv.rs", "Okhwb": "okhwb.rs", "Rgb": "rgb/rgb.rs"}
+    try:
+        skips = {}
+        for name, f in SKIP_FILES.items():
+            src = (root / "palette" / "src" / f).read_text()
+            m = re.search(r"pub struct %s\b" % name, src)
+            head = src[:m.start()] if m else src
+            ms = list(re.finditer(r"skip_derives\(([^)]*)\)", head))
+            skips[name] = sorted(set(x.strip() for x in ms[-1].group(1).split(",") if x.strip())) if ms else []
+        ct = (root / "palette_derive" / "src" / "color_types.rs").read_text()
+        grp = ct[ct.index("static XYZ_COLORS"):ct.index("static CAM16_JCH_COLORS")]
+        grp = grp[grp.index("colors: &["):]
+        pairs = [list(p) for p in re.findall(r'name: "(\w+)",.*?preferred_source: "(\w+)"', grp, re.S) if p[0] != "Xyz"]
+        names = {"Xyz"} | {p[0] for p in pairs}
+        if not pairs or names != set(SKIP_FILES) or any(p[1] not in names for p in pairs):
+            return None
+        if any(not set(v) <= names for v in skips.values()):
+            return None
+        return pairs, skips
+    except Exception:
+        return None
+
+
+def spec_tables(text):
+    import re
+    pairs = [list(p) for p in re.findall(r'<<"(\w+)", "(\w+)">>', text[text.index("Colors =="):text.index("Root ==")])]
+    skips = {}
+    for name in SKIP_FILES:
+        m = re.search(r"%s \|-> \{([^}]*)\}" % name, text[text.index("Skip =="):])
+        skips[name] = sorted(set(x.strip().strip('"') for x in m.group(1).split(",") if x.strip()))
+    return pairs, skips
+
+
+def follow_tree(ctx):
+    """The preferred-source table and the skip lists of ConvGraph.tla are a transcription of the pinned tree.  A change
+    of route is not a property violation, so when the working tree's tables differ the model is regenerated from the
+    tree (a copy of spec/ with the two tables replaced) and TLC checks and validates against that."""
+    import re
     root = Path(os.environ.get("VERIF_REPO_ROOT") or harness_repo_root())
-    for name, f in files.items():
-        src = (root / "palette" / "src" / f).read_text()
-        m = re.search(r"skip_derives\(([^)]*)\)", src)
-        tree = set(x.strip() for x in m.group(1).split(",")) if m else set()
-        m2 = re.search(r"%s \|-> \{([^}]*)\}" % name, spec)
-        model = set(x.strip().strip('"') for x in m2.group(1).split(","))
-        if tree != model:
-            raise ToolError("ConvGraph.tla skip list of %s (%s) differs from the working tree (%s): update the transcription" % (name, sorted(model), sorted(tree)))
-    ct = (root / "palette_derive" / "src" / "color_types.rs").read_text()
-    xyz_group = ct[ct.index("static XYZ_COLORS"):ct.index("static CAM16_JCH_COLORS")]
-    xyz_group = xyz_group[xyz_group.index("colors: &["):]
-    tree_pairs = re.findall(r'name: "(\w+)",.*?preferred_source: "(\w+)"', xyz_group, re.S)
-    tree_pairs = [p for p in tree_pairs if p[0] != "Xyz"]
-    model_pairs = re.findall(r'<<"(\w+)", "(\w+)">>', spec[spec.index("Colors =="):spec.index("Root ==")])
-    if tree_pairs != model_pairs:
-        raise ToolError("ConvGraph.tla preferred-source table differs from color_types.rs: %s vs %s" % (model_pairs, tree_pairs))
+    text = (SPEC / "ConvGraph.tla").read_text()
+    tree = tree_tables(root)
+    if tree is None:
+        log("C01: NOTE routing tables of the working tree not readable; the pinned transcription stays in force")
+        ctx.cov.setdefault("notes", []).append("routing tables not readable from the working tree; pinned transcription used")
+        return
+    if tree == spec_tables(text):
+        return
+    pairs, skips = tree
+    log("C01: NOTE routing tables of the working tree differ from the pinned transcription; model regenerated from the tree")
+    ctx.cov.setdefault("notes", []).append("ConvGraph.tla tables regenerated from the working tree (routes changed)")
+    colors = "Colors == << " + ", ".join('<<"%s", "%s">>' % tuple(p) for p in pairs) + " >>\n"
+    skip = "Skip == [ " + ",\n          ".join("%s |-> {%s}" % (n, ", ".join('"%s"' % x for x in skips[n])) for n in SKIP_FILES) + " ]\n"
+    a, b = text.index("Colors =="), text.index("Root ==")
+    text = text[:a] + colors + text[b:]
+    a = text.index("Skip ==")
+    b = text.index("]", a) + 1
+    text = text[:a] + skip + text[b:].lstrip("\n")
+    dst = ctx.work / "spec_tree"
+    shutil.copytree(SPEC, dst, ignore=shutil.ignore_patterns("states", "*.out"))
+    (dst / "ConvGraph.tla").write_text(text)
+    import common
+    common.use_spec_dir(dst)
 
 
 def harness_repo_root():
